@@ -47,7 +47,7 @@ func oracleMinMax1(p, lo, hi float64) (float64, float64) {
 
 func checkC16(c *Ctx) {
 	c.Rule("boxes x points stratified over the 9 (2D) / 27 (3D) below/within/above position classes incl. class boundaries; " +
-		"interval pairs incl. touching/degenerate; unions of 2..12 exact 2D operands x {default, PolyMin, RoundMin, ChamferMin, ExpMin} " +
+		"interval pairs incl. touching/degenerate; unions of 2..12 (one in 16: 13..130, around the block sizes 16/32/64) exact 2D operands x {default, PolyMin, RoundMin, ChamferMin, ExpMin} " +
 		"x points near/inside/between operand boxes. Distinct non-trivial = (dimension, position class) for boxes, " +
 		"(blend kind, operand count, pruning-happened) for unions, counted only when the pruned path really skipped an operand.")
 	c.Assume("union operands are exact-distance 2D shapes with tight boxes (circle, box, rounded box, rigidly transformed) - the domain where box pruning is meant to be exact")
@@ -185,6 +185,14 @@ func checkC16(c *Ctx) {
 	parallelFor(nUni, func(i int) {
 		ru := c.Rng("union", i)
 		n := ru.IR(2, 12)
+		if i%16 == 5 {
+			// big unions (hole patterns, text lines): anything that treats the operand list in blocks, or keeps per-operand
+			// scratch of a fixed size, only shows beyond its block size
+			n = pickOne(ru, []int{13, 16, 17, 31, 32, 33, 34, 40, 48, 63, 64, 65, 70, 96, 130})
+			if ru.Bool() {
+				n = ru.IR(13, 80)
+			}
+		}
 		scale := ru.LogR(0.1, 100)
 		ops := make([]sdf.SDF2, 0, n)
 		desc := make([]string, 0, n)
@@ -456,7 +464,7 @@ func checkC16(c *Ctx) {
 		}
 		c.Eval(nPts)
 		if pruned {
-			c.Distinct(fmt.Sprintf("union/%s/n=%d/layout=%d", blend, len(ops), layout))
+			c.Distinct(fmt.Sprintf("union/%s/n=%d/layout=%d", blend, min(len(ops), 13+(len(ops)-13)/16*16), layout))
 			c.Count("unions_where_pruning_skipped_operands", 1)
 		}
 		if i < 2 {
